@@ -49,6 +49,16 @@ def run_seed(sid):
 def main():
     jobs = int(sys.argv[1]) if len(sys.argv) > 1 else 3
     seeds = sorted(s for s in os.listdir(os.path.join(VERIF, "seeded")) if os.path.isfile(os.path.join(VERIF, "seeded", s, "patch.diff")))
+    only = re.compile(sys.argv[2]) if len(sys.argv) > 2 else None      # optional: re-run only the matching seeds and merge their rows into MATRIX.md
+    old_rows = {}
+    if only is not None:
+        seeds = [s for s in seeds if only.search(s)]
+        mp = os.path.join(VERIF, "seeded", "MATRIX.md")
+        if os.path.exists(mp):
+            for l in open(mp):
+                m = re.match(r"^\| (C\d\d\w?) \|", l)
+                if m:
+                    old_rows[m.group(1)] = l.rstrip("\n")
     with ThreadPoolExecutor(max_workers=jobs) as ex:
         results = list(ex.map(run_seed, seeds))
     rows = []
@@ -77,6 +87,10 @@ def main():
         json.dump(meta, open(meta_path, "w"), indent=1)
         det = "; ".join("%s: %s" % (p, ", ".join(sorted({h["rule"] for h in hs}))) for p, hs in sorted(res.get("detected_by", {}).items())) or "NOT DETECTED"
         rows.append("| %s | %s | %s |" % (sid, "yes" if meta["confirmed"] else "no", det))
+    if old_rows:
+        for r_ in rows:
+            old_rows[re.match(r"^\| (C\d\d\w?) \|", r_).group(1)] = r_
+        rows = [old_rows[k] for k in sorted(old_rows)]
     with open(os.path.join(VERIF, "seeded", "MATRIX.md"), "w") as f:
         f.write("# Seeded changes vs. checks (generated by tools/seed_matrix.py)\n\n| seed (property) | independently confirmed | detected by (property: rules) |\n|---|---|---|\n" + "\n".join(rows) + "\n")
     print("\n".join(rows))
